@@ -245,6 +245,47 @@ def r6_no_discarded_results(ctx):
         r.anchor_missing("Result-typed temporaries in the storage/sync/account crates (found %d)" % n)
 
 
+def r7_open_repairs_empty_log(ctx):
+    """Folder::from_path (the file-system open path) rebuilds the event log from
+    the vault file whenever the LOADED log has no root — that is what brings an
+    account back after a crash between clearing a log and appending its
+    replacement. The branch must be decided by the state of the loaded tree, not
+    by something weaker such as the existence of the file."""
+    ws = ctx.ws
+    r = ctx.rule("C13-R7", "the open path re-initialises a folder log whenever the loaded commit tree is empty",
+                 floor=1, kind="K4 flow into the controlling condition")
+    fns = ws.find_fns(r"^sos_backend::folder::Folder::from_path$")
+    if not fns:
+        r.anchor_missing("Folder::from_path")
+        return
+    f = fns[0]
+    b = cfg.code_body(ws, f)
+    live = cfg.live_blocks(b)
+    from ..flow import FlowGraph
+    fg = FlowGraph(ws, f)
+    splits = [i for i, t in idioms.real_calls(b, live) if cname(t) == "split" and "FolderReducer" in (t.get("callee") or "")]
+    k = f.root + "|repair-when-tree-empty"
+    if not splits:
+        r.violation(k, cfg.loc(b), "Folder::from_path no longer rebuilds an empty log from the vault (FolderReducer::split)", work=len(live))
+        return
+    ok = False
+    gates = 0
+    for j in sorted(live):
+        bs = cfg.bool_switch(b, j)
+        if not bs:
+            continue
+        for tgt, other in ((bs.true_t, bs.false_t), (bs.false_t, bs.true_t)):
+            if all(x in cfg.reach(b, [tgt], cut_blocks=[bs.block]) and x not in cfg.reach(b, [other], cut_blocks=[bs.block]) for x in splits):
+                gates += 1
+                sl = fg.back([(b.path, bs.local)])
+                if any(cname(ct) in ("root", "is_empty", "len", "last_commit", "head") and "CommitTree" in (ct.get("callee") or "") for _b, _i, ct in sl.calls):
+                    ok = True
+    if ok or gates == 0:
+        r.ok(k, cfg.loc(b, splits[0]), "the rebuild is decided by the loaded commit tree (root / is_empty)" if ok else "the rebuild is unconditional", work=len(live))
+    else:
+        r.violation(k, cfg.loc(b, splits[0]), "whether the log is rebuilt from the vault no longer depends on the loaded commit tree: a log file that exists but was emptied by an interrupted operation is opened as it is, and the folder serves secrets its log does not replay", work=len(live))
+
+
 def r4_snapshot_before_destruction(ctx):
     ws = ctx.ws
     r = ctx.rule("C13-R4", "replace_all_events on files takes a snapshot before erasing and removes it only when verified",
@@ -311,3 +352,4 @@ def run(ctx):
     r4_snapshot_before_destruction(ctx)
     r5_vault_before_event(ctx)
     r6_no_discarded_results(ctx)
+    r7_open_repairs_empty_log(ctx)
